@@ -21,9 +21,12 @@ MwsRun(cfg) == IF ~HasScope(cfg) THEN 0 ELSE IF cfg.mwfail > 0 THEN cfg.mwfail E
 ReachesHandler(cfg) == ~cfg.scopemw \/ (HasScope(cfg) /\ cfg.mwfail = 0)
 IsHandle(cfg) == cfg.handler = "handle"
 MethodRuns(cfg) == IsHandle(cfg) /\ ReachesHandler(cfg) /\ HasScope(cfg) /\ cfg.registered
+\* the scope middleware's DEFAULT error handler is in use (none configured): it cannot be observed, only its effects
+\* (the handler does not run, the response is a 500)
+DefaultEH(cfg) == "defeh" \in DOMAIN cfg /\ cfg.defeh
 ExpectedErrHandlers(cfg) ==
-    IF cfg.scopemw /\ cfg.provclosed THEN <<"scope">>
-    ELSE IF HasScope(cfg) /\ cfg.mwfail > 0 THEN <<"mw">>
+    IF cfg.scopemw /\ cfg.provclosed THEN (IF DefaultEH(cfg) THEN <<>> ELSE <<"scope">>)
+    ELSE IF HasScope(cfg) /\ cfg.mwfail > 0 THEN (IF DefaultEH(cfg) THEN <<>> ELSE <<"mw">>)
     ELSE IF IsHandle(cfg) /\ ~cfg.scopemw THEN <<"handle_scope">>
     ELSE IF IsHandle(cfg) /\ ~cfg.registered THEN <<"handle_resolve">>
     ELSE IF MethodRuns(cfg) /\ cfg.method = "panic" /\ cfg.recovery THEN <<"panic">>
@@ -114,7 +117,8 @@ MGuards(ms, e) ==
          MG("error_handlers_as_expected", rq.errhs = ExpectedErrHandlers(cfg)),
          MG("scope_closed_exactly_once", rq.scope # NONE => rq.closed = 1),
          MG("scoped_instance_closed_exactly_once", rq.probe # 0 => rq.probeClosed = 1),
-         MG("panic_swallowed_iff_recovery", e.panicked = PanicEscapes(cfg))}
+         MG("panic_swallowed_iff_recovery", e.panicked = PanicEscapes(cfg)),
+         MG("default_error_handler_answers_500", DefaultEH(cfg) => e.status = 500)}
     ELSE IF e.ev = "closeerrh" THEN
         \* the handler is told about a failed close of a request scope: only when one failed, at most once per scope
         {MGI("close_error_handler_only_for_failed_close",
